@@ -91,6 +91,8 @@ TDrvDst == /\ Ev.op = "dst"
 (* dropped by the driver.                                                     *)
 TDrvRet == /\ Ev.op = "dret"
            /\ (Ev.err = "Limit" => (Ev.elim = lim /\ dl = lim))
+           \* r's error, the destination's, io.Copy's own short-write verdict, the limit - nothing of the reader's own
+           /\ Ev.err \in RErrs \cup WErrs \cup {"ShortWrite", "Limit"}
            /\ ddst' = dl
            /\ UNCHANGED <<rvars, wvars, wpend>>
 
